@@ -139,6 +139,11 @@ int64_t Model::mask_of_logger_at(int slot, uint64_t seq) const
 // ---- registry ------------------------------------------------------------------------------------
 void register_c03(std::vector<Profile>&);
 void register_c06(std::vector<Profile>&);
+void register_c08(std::vector<Profile>&);
+void register_c09(std::vector<Profile>&);
+void register_c10(std::vector<Profile>&);
+void register_c18(std::vector<Profile>&);
+void register_c20(std::vector<Profile>&);
 
 static std::vector<Profile>& registry()
 {
@@ -147,6 +152,11 @@ static std::vector<Profile>& registry()
     std::vector<Profile> v;
     register_c03(v);
     register_c06(v);
+    register_c08(v);
+    register_c09(v);
+    register_c10(v);
+    register_c18(v);
+    register_c20(v);
     return v;
   }();
   return r;
